@@ -100,6 +100,9 @@ class SigmaNull(SigmaType):
     def __eq__(self, other: Any) -> bool:
         return isinstance(other, self.__class__)
 
+    def __repr__(self) -> str:
+        return f"{self.__class__.__name__}()"
+
 
 @dataclass
 class SigmaExists(SigmaType):
